@@ -74,9 +74,9 @@ CLAIMED = {
         "destination decode back, directedEdgeToCells agrees, cellsToDirectedEdge(origin, destination) reproduces the "
         "edge, non-neighbour / identical / cross-resolution pairs give E_NOT_NEIGHBORS with the output untouched, and "
         "isValidDirectedEdge on candidate words (every reserved value, wrong modes, high bit, mutations) equals the spec.",
-        "Trusted: TLC, H3Grid transcription, frozen tables, driver. The geometric clauses (directedEdgeToBoundary = shared "
-        "stretch, edgeLength*) are numeric observations checked by the C08 machinery when built; until then they are "
-        "not covered by this check.",
+        "Trusted: TLC, H3Grid transcription, frozen tables, driver. The geometric clauses are checked on vertex ids by "
+        "Trace_Geo: directedEdgeToBoundary(a->b) = the stretch of a's boundary shared with b (2-3 points), reversed for "
+        "the opposite edge; edgeLengthRads = summed great-circle arcs (rel 1e-7), Km/M scalings (numeric projection, DESIGN 6).",
         "DESIGN.md 3.8, 5/C10"),
     "C11": (
         "TLC trace validation of vertex API events against the triangle structure of the neighbour graph",
@@ -89,7 +89,8 @@ CLAIMED = {
         "(every reserved value over the cell, wrong mode, high bit, mutations, random) is true exactly for the canonical "
         "indexes listed by cellToVertexes of the owner.",
         "Trusted: TLC, H3Grid transcription, frozen tables, driver. The global count 2N-4 follows from the local triangle "
-        "structure on complete resolutions; vertexToLatLng coincidence is a numeric observation (C08 machinery).",
+        "structure on complete resolutions. vertexToLatLng(slot i) = i-th topological corner of cellToBoundary is checked "
+        "on vertex ids (1e-12 rad clustering) by Trace_Geo (numeric projection, DESIGN 6).",
         "DESIGN.md 3.8, 5/C11"),
     "C09": (
         "TLC trace validation of gridDistance / local IJ events against BFS distance on the TLA+ neighbour graph",
@@ -149,6 +150,21 @@ CLAIMED = {
         "Trusted: TLC, the transcription, frozen tables and face centres; the nearest-face observation is a numeric "
         "projection with an ambiguity band of 1e-9.",
         "DESIGN.md 3.6, 5/C19"),
+    "C08": (
+        "TLC: integer vertex identity on the face lattice (exact tiling, r<=2/3) + TLC trace validation of boundary neighbourhoods on vertex ids and of BigNat area sums",
+        "Exact form in the model: the substrate corners of adjacent cells coincide as integer points, every corner belongs "
+        "to exactly three cells, neighbours share exactly two (MC_FaceIJK over complete grids r<=2, thorough 3). "
+        "Executions: for every cell of the model graph r<=2(3), pentagon disks, cells along the 30 icosahedron edges and "
+        "random cells at r=3..15 the driver projects cellToBoundary of the cell and of all its neighbours onto vertex ids "
+        "(1e-12 rad clustering) and TLC validates: vertex count (6; 6-8 at odd r; 5/10 pentagon), no repeated point, "
+        "counter-clockwise with the centre strictly inside, the set of neighbours = N(c), the stretch shared with each "
+        "neighbour is contiguous (2-3 ids) and runs reversed in the neighbour, corners belong to 3 cells and distortion "
+        "vertices to 2, area = independently computed spherical area, Km2/M2 scalings; a dense walk along all icosahedron "
+        "edges validates the cell's own boundary (count, distinctness, orientation) for 2.7x10^5 (1.1x10^6) cells; the "
+        "areas of ALL cells of r<=3 (4) are summed in BigNat by the trace spec: count = 2+120*7^r and sum = 4*pi within 1e-12 sr.",
+        "Coordinates reach TLC through a trusted numeric projection (vertex ids, orientation signs, integer deviations; "
+        "DESIGN 4.3/6); tolerances are fixed at >= 10x the worst deviation measured on the pinned tree.",
+        "DESIGN.md 3.6, 5/C08"),
     "C18": (
         "TLC: interleaving model of threads/calls with a negative control + TLC trace validation of concurrent executions against the sequential reference; TSan reports are unconsumable events",
         "H3Threads.tla: threads take Begin/End steps around calls; in the specified design no step writes library "
